@@ -3,7 +3,6 @@ using SP_q3_b = SplineTrajectory::QuinticSplineND<3>;
 using TM_q3_b = SplineTrajectory::QuadInvTimeMap;
 using SM_q3_b = SplineTrajectory::IdentitySpatialMap<3>;
 OPT_REGISTER_ONE(C12, P_C12, q3_b, SP_q3_b, TM_q3_b, SM_q3_b, false, 1)
-#ifndef STSIM_TSAN
 OPT_REGISTER_ONE(C07, P_C07, q3_b, SP_q3_b, TM_q3_b, SM_q3_b, false, 1)
 OPT_REGISTER_ONE(C08, P_C08, q3_b, SP_q3_b, TM_q3_b, SM_q3_b, false, 1)
 OPT_REGISTER_ONE(C09, P_C09, q3_b, SP_q3_b, TM_q3_b, SM_q3_b, false, 1)
@@ -11,4 +10,3 @@ OPT_REGISTER_ONE(C10, P_C10, q3_b, SP_q3_b, TM_q3_b, SM_q3_b, false, 1)
 OPT_REGISTER_ONE(C15, P_C15, q3_b, SP_q3_b, TM_q3_b, SM_q3_b, false, 1)
 OPT_REGISTER_ONE(C16, P_C16, q3_b, SP_q3_b, TM_q3_b, SM_q3_b, false, 1)
 OPT_REGISTER_ONE(C19, P_C19, q3_b, SP_q3_b, TM_q3_b, SM_q3_b, false, 1)
-#endif
